@@ -101,7 +101,14 @@ class Ctx(object):
         from .cfg import Facts
         k = ("facts", f.qualname)
         if k not in self._cfg_cache:
-            self._cfg_cache[k] = Facts(self.cfg(f))
+            self._cfg_cache[k] = Facts(self.cfg(f), params=f.params)
+        return self._cfg_cache[k]
+
+    def inliner(self, f):
+        from .cfg import Inliner
+        k = ("inl", f.qualname)
+        if k not in self._cfg_cache:
+            self._cfg_cache[k] = Inliner(self.cfg(f), params=f.params)
         return self._cfg_cache[k]
 
 
